@@ -37,10 +37,19 @@ def spec(tier: str, seed: int, which: str = "C18") -> Spec:
             for f in range(len(H.FORESTS)):
                 for r in range(5):
                     fams.append(Family(f"stale-K{KS}-{op}-forest{f}-h{r}", H.make_harness(KS, which, [op], later, forest=f, first_recv=r), per_path_timeout=3.0, variables="selectors: receiver per step; operations after the first from a reduced alphabet"))
+    if which == "C19":
+        KR = 3 if tier == "quick" else 4
+        for op in H.DETACHED_WRAPS + ["detach_self"]:
+            for f in range(len(H.FORESTS)):
+                kk = KR + (1 if op == "detach_self" else 0)
+                # quick: the root of the first tree is the node detached on its own, and no duplicate afterwards
+                recv = 0 if (op == "detach_self" and tier == "quick") else None
+                later_ = [o for o in H.REJECT_LATER if o != "duplicate"] if (op == "detach_self" and tier == "quick") else H.REJECT_LATER
+                fams.append(Family(f"stale-detached-K{kk}-{op}-forest{f}", H.make_harness(kk, which, [op], later_, forest=f, first_recv=recv), per_path_timeout=3.0, variables="selectors: receiver per step; operations after the first from a reduced alphabet"))
     return Spec(
         families=fams,
         functions=FUNCTIONS,
-        bounds={"history_length": f"{K} (thorough: the third operation from {H.THIRD_OPS})" if K == 3 else 2, "guided_histories": f"C18 only, length {KS}: first operation in {firsts}, later operations in {later}", "forests": len(H.FORESTS), "operations": ops, "handles": f"<= {H.MAX_HANDLES} (designated nodes of the initial forest plus results)"},
+        bounds={"history_length": f"{K} (thorough: the third operation from {H.THIRD_OPS})" if K == 3 else 2, "guided_histories": f"C18: length {KS}, first operation in {firsts}, later operations in {later}; C19: a detached wrapper / detach_self first, then {H.REJECT_LATER}", "forests": len(H.FORESTS), "operations": ops, "handles": f"<= {H.MAX_HANDLES} (designated nodes of the initial forest plus results)"},
         rule="a case = (initial forest, K operations each with receiver / argument); after every successful operation the invariant is evaluated on every attached node; distinct by (forest, history text)",
         variables="selectors only (bounded exploration of operation histories); per-path watchdog 3 s",
         assumptions=[
